@@ -9,8 +9,10 @@ mod rng;
 mod util;
 
 mod c10;
+mod c14;
 mod c18;
 mod c19;
+mod registry;
 mod gen;
 mod htmlk;
 mod opts;
@@ -62,11 +64,9 @@ fn main() {
                 i += 1;
             }
             let mut rep = Report::new(&id);
-            match id.as_str() {
-                "C19" => c19::run(&cfg, &mut rep),
-                "C10" => c10::run(&cfg, &mut rep),
-                "C18" => c18::run(&cfg, &mut rep),
-                _ => {
+            match registry::find(&id) {
+                Some(e) => (e.run)(&cfg, &mut rep),
+                None => {
                     eprintln!("unknown property {}", id);
                     std::process::exit(2);
                 }
@@ -81,11 +81,9 @@ fn main() {
             let id = args[2].as_str();
             let kind = args.get(3).map(|s| s.as_str()).unwrap_or("");
             let input = args.get(4).map(|s| s.as_str()).unwrap_or("");
-            let r = match id {
-                "C19" => c19::replay(kind, input),
-                "C10" => c10::replay(kind, input),
-                "C18" => c18::replay(kind, input),
-                _ => Err(format!("unknown property {}", id)),
+            let r = match registry::find(id) {
+                Some(e) => (e.replay)(kind, input),
+                None => Err(format!("unknown property {}", id)),
             };
             match r {
                 Ok(None) => {
